@@ -161,7 +161,11 @@ def case_keys(case):
 
 # ------------------------------------------------------------------ Gallina rendering
 def gstr(s):
-    return "[" + ";".join(str(ord(ch)) for ch in s) + "]"
+    """a string as the list of its UTF-8 bytes (Coq string literal when printable ASCII)"""
+    b = s.encode("utf-8")
+    if all(32 <= x < 127 for x in b):
+        return '(s "' + s.replace('"', '""') + '")'
+    return "[" + ";".join(str(x) for x in b) + "]"
 
 
 def gvalue(v):
@@ -175,20 +179,20 @@ def gvalue(v):
     if t == "list":
         return "(VList " + glist(gvalue(x) for x in v["v"]) + ")"
     if t == "dict":
-        return "(VDict " + glist(f"({gstr(k)}, {gvalue(x)})" for k, x in v["v"]) + ")"
+        return "(VDict " + glist(f"(F {gstr(k)} {gvalue(x)})" for k, x in v["v"]) + ")"
     raise ValueError(t)
 
 
 def gnode(nd):
-    return ("{| cls := %s; fields := %s; pre := %s; init := %s; task := %s; sealed := %s |}" % (
+    return ("(Build_node %s %s %s %s %s %s)" % (
         gnat(CLASS_ORDER.index(nd["cls"])),
-        glist(f"({gstr(k)}, {gvalue(v)})" for k, v in nd["fields"]),
+        glist(f"(F {gstr(k)} {gvalue(v)})" for k, v in nd["fields"]),
         glist(gnat(x) for x in nd["pre"]), glist(gnat(x) for x in nd["init"]),
         "None" if nd.get("task") is None else f"(Some {gnat(nd['task'])})", gbool(nd["sealed"])))
 
 
 def gpath(p):
-    return "{| p_root := %s; p_parts := %s |}" % (gnat(p["root"]), glist(gstr(x) for x in p["parts"]))
+    return "(Build_ppath %s %s)" % (gnat(p["root"]), glist(gstr(x) for x in p["parts"]))
 
 
 def rel_to_job(p, jd):
@@ -201,18 +205,27 @@ def rel_to_job(p, jd):
     return p
 
 
-def gvalues(vals):
-    return glist("(%s, %s, %s)" % (gnat(v["node"]), gstr(v["arg"]),
-                                    "None" if v["path"] is None else f"(Some {gpath(v['path'])})") for v in vals)
+SEALED = dict(root=1, parts=["SEALED"])
+
+
+def gvalues(vals, sealed):
+    # the value of a configuration sealed by an earlier submit is not this submit's business
+    return glist("(V3 %s %s %s)" % (gnat(v["node"]), gstr(v["arg"]),
+                                     "None" if v["path"] is None else
+                                     f"(Some {gpath(SEALED if sealed[v['node']] else v['path'])})") for v in vals)
+
+
+def g_gens(classes):
+    return glist(glist(f"(G2 {gstr(x)} {gstr(y)})" for x, y in classes[name]) for name in CLASS_ORDER)
 
 
 def g_case(c):
     a = c["ans"]
     heap = glist(gnode(nd) for nd in c["nodes"])
-    gens = glist(glist(f"({gstr(x)}, {gstr(y)})" for x, y in c["classes"][name]) for name in CLASS_ORDER)
-    ans = "{| a_sealed := %s; a_values := %s; a_values2 := %s |}" % (
-        glist(gbool(b) for b in a["sealed"]), gvalues(a["values"]), gvalues(a["values2"]))
-    return f"({heap}, {gens}, {gnat(c['root'])}, {ans})"
+    v1 = gvalues(a["values"], a["sealed"])
+    v2 = gvalues(a["values2"], a["sealed"])
+    ans = "(let v := %s in Build_answer %s v %s)" % (v1, glist(gbool(b) for b in a["sealed"]), "v" if v1 == v2 else v2)
+    return f"(Case {heap} gens {gnat(c['root'])} {ans})"
 
 
 # ------------------------------------------------------------------ oracle (independent of the model)
@@ -228,7 +241,9 @@ def resolve(parts):
     return out
 
 
-def oracle(c, case):
+def oracle(case):
+    """the property restated over the implementation's answers; returns the violations"""
+    out = []
     a = case["raw"]
     first, second = a["first"], a["second"]
     jd = first["jobdir"]
@@ -242,21 +257,86 @@ def oracle(c, case):
         rp = resolve(p["parts"])
         inside = p["root"] == jd["root"] and rp[:len(jparts)] == jparts and len(rp) > len(jparts)
         if not inside:
-            c.violation(f"C17:outside-jobdir:{why}", "a generated path does not resolve inside the job directory",
-                        dict(case=small, value=v, jobdir=jd))
+            out.append(dict(key=f"C17:outside-jobdir:{why}",
+                            what="a generated path does not resolve inside the job directory",
+                            data=dict(case=small, value=v, jobdir=jd)))
         fname = dict(map(tuple, case["classes"][case["nodes"][v["node"]]["cls"]]))[v["arg"]]
         k = (p["root"], tuple(rp))
         who = (v["node"], fname)
         if k in seen and seen[k] != who:
-            c.violation(f"C17:same-path:{why}", "two different generated parameters received the same path",
-                        dict(case=small, a=dict(node=seen[k][0], file=seen[k][1]), b=dict(node=who[0], file=who[1]),
-                             path=p))
+            out.append(dict(key=f"C17:same-path:{why}",
+                            what="two different generated parameters received the same path",
+                            data=dict(case=small, a=dict(node=seen[k][0], file=seen[k][1]),
+                                      b=dict(node=who[0], file=who[1]), path=p)))
         seen.setdefault(k, who)
     r1 = [rel_to_job(v["path"], jd) for v in first["values"]]
     r2 = [rel_to_job(v["path"], second["jobdir"]) for v in second["values"]]
     if r1 != r2 or jd != second["jobdir"]:
-        c.violation(f"C17:not-reproducible:{why}", "submitting the same configuration again gave other paths",
-                    dict(case=small, first=first, second=second))
+        out.append(dict(key=f"C17:not-reproducible:{why}",
+                        what="submitting the same configuration again gave other paths",
+                        data=dict(case=small, first=first, second=second)))
+    return out
+
+
+# ------------------------------------------------------------------ shrinking
+def reductions(case):
+    """every case obtained by deleting one field / list element / dict entry / pre or init task
+    of a configuration that is neither sealed nor produced by task_outputs"""
+    import copy
+    res = []
+
+    def emit(mut):
+        c2 = copy.deepcopy(dict(root=case["root"], producers=case["producers"], nodes=case["nodes"]))
+        mut(c2["nodes"])
+        for nd in c2["nodes"]:
+            nd.pop("order", None)
+        res.append(c2)
+
+    def sub(v, path):
+        """paths to the containers inside v"""
+        if v["t"] in ("list", "dict"):
+            yield path
+            for k, x in enumerate(v["v"]):
+                yield from sub(x if v["t"] == "list" else x[1], path + [k])
+
+    def at(v, path):
+        for k in path:
+            v = v["v"][k] if v["t"] == "list" else v["v"][k][1]
+        return v
+
+    for i, nd in enumerate(case["nodes"]):
+        if nd["sealed"] or nd["cls"] == "Out":
+            continue
+        for f in range(len(nd["fields"])):
+            emit(lambda ns, i=i, f=f: ns[i]["fields"].pop(f))
+            for path in sub(nd["fields"][f][1], []):
+                for k in range(len(at(nd["fields"][f][1], path)["v"])):
+                    emit(lambda ns, i=i, f=f, path=path, k=k: at(ns[i]["fields"][f][1], path)["v"].pop(k))
+        for which in ("pre", "init"):
+            for k in range(len(nd[which])):
+                emit(lambda ns, i=i, which=which, k=k: ns[i][which].pop(k))
+    return res
+
+
+def shrink(c, case, key, classes):
+    cur = case
+    for _ in range(40):
+        cands = reductions(cur)
+        if not cands:
+            break
+        r = run_impl("drive_c17.py", dict(workdir=str(c.scratch() / "shrink"), cases=cands), timeout=600)
+        found = None
+        for cand, a in zip(cands, r["answers"]):
+            if "error" in a:
+                continue
+            cand["raw"], cand["classes"] = a, classes
+            if any(v["key"] == key for v in oracle(cand)):
+                found = cand
+                break
+        if found is None:
+            break
+        cur = found
+    return cur
 
 
 # ------------------------------------------------------------------ driver runs
@@ -279,9 +359,9 @@ def run_cases(c, cases):
     return classes
 
 
-HEADER = ("From Coq Require Import ZArith NArith List Bool.\n"
+HEADER = ("From Coq Require Import ZArith NArith List Bool String.\n"
           "From XV Require Import model.Walk model.GenPath corr.GenPathCorr.\n"
-          "Import ListNotations.\nOpen Scope N_scope.\n")
+          "Import ListNotations.\nOpen Scope string_scope.\nOpen Scope N_scope.\n")
 
 
 def run(c: Check):
@@ -339,15 +419,21 @@ def run(c: Check):
                 c.count("node-with-pretasks")
         if len(new) >= 3 and len(depths) >= 2:
             c.nontrivial.add(json.dumps(case["nodes"], sort_keys=True))
-        oracle(c, case)
+        for v in oracle(case):
+            if not any(x["key"] == v["key"] for x in c.violations):
+                if not c.replay:
+                    small = shrink(c, case, v["key"], classes)
+                    v = next(x for x in oracle(small) if x["key"] == v["key"])
+                c.violation(v["key"], v["what"], v["data"])
     c.samples = [dict(nodes=x["nodes"], producers=x["producers"], jobdir=x["raw"]["first"]["jobdir"],
                       values=x["ans"]["values"]) for x in good[:2]]
-    bad = c.corr_shards("corr", HEADER, good, g_case, "check_case", shard=250)
+    header = HEADER + "Definition gens := " + g_gens(classes) + ".\n"
+    bad = c.corr_shards("corr", header, good, g_case, "check_case", shard=100)
     if bad:
         # which behaviour does the tree have?  (the code before fixes/C17-1.diff uses dict keys as they are)
         sub = [good[i] for i in bad[:200]]
         saved = list(c.obligations)
-        bad_prefix = c.corr_shards("diag", HEADER, sub, g_case, "check_case_prefix", shard=250)
+        bad_prefix = c.corr_shards("diag", header, sub, g_case, "check_case_prefix", shard=100)
         c.obligations = saved
         c.extra["disagreeing_total"] = len(bad)
         c.extra["disagreeing_with_nonplain_keys"] = sum(
